@@ -129,7 +129,7 @@ func NewPositionRange(lines []string, val *yaml.Node, minColumn int) (offsets Po
 
 	NEXT:
 		lineIndex++
-		columnIndex = minColumn
+		columnIndex = max(minColumn-1, 1)
 
 		if need == ' ' || need == '\n' {
 			needIndex++
